@@ -13,45 +13,46 @@ open Ssv.Qbft Ssv.Qbft.B
 
 /-- a signed part of the height whose signature verifies is reflected in the height's trace -/
 def BackedT (P : B.Params) (T : List (Ev (B.Op P))) (b : Base) : Prop :=
-  b.height = P.height → b.sigOk = true → ∀ j : B.Op P, P.honest j = true → opId j ∈ b.signers →
+  b.height = P.height → b.ident = ownIdent → b.sigOk = true → ∀ j : B.Op P, P.honest j = true → opId j ∈ b.signers →
     (b.type = tPrepare → Ev.P j b.round b.root ∈ T) ∧ (b.type = tCommit → Ev.K j b.round b.root ∈ T) ∧
     (b.type = tRoundChange → Ev.RC j b.round b.dataRound b.root ∈ T)
 
 def AuthT (P : B.Params) (T : List (Ev (B.Op P))) (m : Msg) : Prop :=
-  BackedT P T m.toBase ∧ ∀ rc ∈ m.rcJust, BackedT P T rc.toBase ∧ ∀ pm ∈ rc.just, BackedT P T pm
+  m.ident = ownIdent ∧ BackedT P T m.toBase ∧ ∀ rc ∈ m.rcJust, BackedT P T rc.toBase ∧ ∀ pm ∈ rc.just, BackedT P T pm
 
 variable {P : B.Params} {T : List (Ev (B.Op P))}
 
 theorem prepOK_of_valid' (i : B.Op P) (m : Msg) (h r root : Nat) (hh : h = P.height)
-    (hv : validSignedPrepare (P.cfg i) m.toBase h r root = .ok ()) (ha : BackedT P T m.toBase) :
+    (hv : validSignedPrepare (P.cfg i) m.toBase h r root = .ok ()) (hid : m.ident = ownIdent) (ha : BackedT P T m.toBase) :
     PrepOK P T m ∧ m.round = r ∧ m.root = root := by
   obtain ⟨ht, hhe, hr, hroot, hso, sg, hsg, hc⟩ := validSignedPrepare_ok _ _ _ _ _ _ hv
   refine ⟨⟨sg, hsg, hc, ?_⟩, hr, hroot⟩
   intro j hj hjs
   have hmem : opId j ∈ m.toBase.signers := by rw [hsg, hjs]; simp
-  exact (ha (by rw [hhe, hh]) hso j hj hmem).1 ht
+  exact (ha (by rw [hhe, hh]) hid hso j hj hmem).1 ht
 
 theorem commitOK_of' (m : Msg) (ht : m.type = tCommit) (hso : m.sigOk = true) (hnd : m.signers.Nodup)
-    (hc : ∀ s ∈ m.signers, s ∈ P.committee) (hh : m.height = P.height) (ha : BackedT P T m.toBase) : CommitOK P T m :=
-  ⟨hnd, hc, fun j hj hmem => (ha hh hso j hj hmem).2.1 ht⟩
+    (hc : ∀ s ∈ m.signers, s ∈ P.committee) (hh : m.height = P.height) (hid : m.ident = ownIdent)
+    (ha : BackedT P T m.toBase) : CommitOK P T m :=
+  ⟨hnd, hc, fun j hj hmem => (ha hh hid hso j hj hmem).2.1 ht⟩
 
 theorem cert_facts' (hP : P.Valid) (i : B.Op P) (m : Msg) (hv : validateDecided (P.cfg i) m = .ok ())
-    (hh : m.height = P.height) (ha : BackedT P T m.toBase) : CertFacts P T m := by
+    (hh : m.height = P.height) (hid : m.ident = ownIdent) (ha : BackedT P T m.toBase) : CertFacts P T m := by
   obtain ⟨ht, hq, hnd, _, hso, hc, hhash⟩ := validateDecided_ok _ m () hv
-  have hok := commitOK_of' m ht hso hnd hc hh ha
+  have hok := commitOK_of' m ht hso hnd hc hh hid ha
   have hq' : P.quorum ≤ uniqueCount m.signers := by rw [uniqueCount_of_nodup _ hnd]; exact hq
   obtain ⟨j, hj, hmem⟩ := exists_honest_signer P hP m.signers hc hq'
-  exact ⟨hok, hhash, hh, hq', j, hj, (ha hh hso j hj hmem).2.1 ht⟩
+  exact ⟨hok, hhash, hh, hq', j, hj, (ha hh hid hso j hj hmem).2.1 ht⟩
 
 theorem commitOK_of_validateCommit' (i : B.Op P) (m : Msg) (h r : Nat) (p : Msg) (hh : h = P.height)
-    (hv : validateCommit (P.cfg i) m.toBase h r p = .ok ()) (ha : BackedT P T m.toBase) :
+    (hv : validateCommit (P.cfg i) m.toBase h r p = .ok ()) (hid : m.ident = ownIdent) (ha : BackedT P T m.toBase) :
     CommitOK P T m ∧ m.round = r ∧ p.root = m.root := by
   obtain ⟨ht, hso, hc, hnd, _, hr, hroot, hhe, _⟩ := validateCommit_ok _ _ _ _ _ _ hv
-  exact ⟨commitOK_of' m ht hso hnd hc (by rw [← hh]; exact hhe) ha, hr, hroot⟩
+  exact ⟨commitOK_of' m ht hso hnd hc (by rw [← hh]; exact hhe) hid ha, hr, hroot⟩
 
 theorem BackedT.ext {b : Base} (h : BackedT P T b) (evs : List (Ev (B.Op P))) : BackedT P (T ++ evs) b := by
-  intro h1 h2 j hj hm
-  obtain ⟨a, b', c⟩ := h h1 h2 j hj hm
+  intro h1 h1' h2 j hj hm
+  obtain ⟨a, b', c⟩ := h h1 h1' h2 j hj hm
   exact ⟨fun t => List.mem_append_left _ (a t), fun t => List.mem_append_left _ (b' t), fun t => List.mem_append_left _ (c t)⟩
 
 /-- every node transition of a live (or freshly created) instance keeps the node invariant -/
@@ -76,21 +77,21 @@ theorem nodeInv_step' (hP : P.Valid)
     have hno := hfresh h0 s' hs'
     rw [h1] at hs'; simp only [Option.some.injEq] at hs'; subst hs'
     rw [h3]
-    have cf := cert_facts' hP i m hv hh ha.1
+    have cf := cert_facts' hP i m hv hh ha.1 ha.2.1
     obtain ⟨j, hj, hK⟩ := cf.honest
     exact nodeInv_createDecided hno m cf.ok (H0 j _ _ hj hK)
   | adopt s m ha h0 hd hv hh h1 h2 h3 =>
     have hinv := hlive s h0
     rw [h1] at hs'; simp only [Option.some.injEq] at hs'; subst hs'
     rw [h3]
-    have cf := cert_facts' hP i m hv hh ha.1
+    have cf := cert_facts' hP i m hv hh ha.1 ha.2.1
     obtain ⟨j, hj, hK⟩ := cf.honest
     exact NodeInv.step_adopt hinv m hd cf.ok (H0 j _ _ hj hK)
   | more s m ha h0 hd hv hh h1 h2 h3 =>
     have hinv := hlive s h0
     rw [h1] at hs'; simp only [Option.some.injEq] at hs'; subst hs'
     rw [h3, List.append_nil]
-    exact NodeInv.upd_commit hinv m (cert_facts' hP i m hv hh ha.1).ok
+    exact NodeInv.upd_commit hinv m (cert_facts' hP i m hv hh ha.1 ha.2.1).ok
   | prop s m ha h0 hv hnew h1 h2 h3 =>
     have hinv := hlive s h0
     rw [h1] at hs'; simp only [Option.some.injEq] at hs'; subst hs'
@@ -100,7 +101,7 @@ theorem nodeInv_step' (hP : P.Valid)
     have hinv := hlive s h0
     rw [h1] at hs'; simp only [Option.some.injEq] at hs'; subst hs'
     rw [h3, List.append_nil]
-    obtain ⟨hok, hr, hroot⟩ := prepOK_of_valid' i m _ _ _ hinv.height hv ha.1
+    obtain ⟨hok, hr, hroot⟩ := prepOK_of_valid' i m _ _ _ hinv.height hv ha.1 ha.2.1
     refine NodeInv.upd_prepare hinv m hok ?_
     by_cases hpr : p.round = s.round
     · exact Or.inl ⟨p, (hinv.acc p hacc).1, by rw [hpr, hr], hroot.symm⟩
@@ -108,7 +109,7 @@ theorem nodeInv_step' (hP : P.Valid)
   | prepQ s m p ha h0 hacc hv hq h1 h2 =>
     have hinv := hlive s h0
     rw [h1] at hs'; simp only [Option.some.injEq] at hs'; subst hs'
-    obtain ⟨hok, hr, hroot⟩ := prepOK_of_valid' i m _ _ _ hinv.height hv ha.1
+    obtain ⟨hok, hr, hroot⟩ := prepOK_of_valid' i m _ _ _ hinv.height hv ha.1 ha.2.1
     have hkind : PrepKind T i s m := by
       by_cases hpr : p.round = s.round
       · exact Or.inl ⟨p, (hinv.acc p hacc).1, by rw [hpr, hr], hroot.symm⟩
@@ -124,14 +125,14 @@ theorem nodeInv_step' (hP : P.Valid)
     have hinv := hlive s h0
     rw [h1] at hs'; simp only [Option.some.injEq] at hs'; subst hs'
     rw [h3, List.append_nil]
-    exact NodeInv.upd_commit hinv m (commitOK_of_validateCommit' i m _ _ p hinv.height hv ha.1).1
+    exact NodeInv.upd_commit hinv m (commitOK_of_validateCommit' i m _ _ p hinv.height hv ha.1 ha.2.1).1
   | comQ s m p agg ha h0 hacc hv hq hagg h1 h2 h3 =>
     have hinv := hlive s h0
     rw [h1] at hs'; simp only [Option.some.injEq] at hs'; subst hs'
     rw [h3]
     obtain ⟨_, _, _, _, _, _, _, _, _, hfd, _⟩ := aggregateCommitMsgs_spec _ _ _ hagg
     have hE := NodeInv.ext hinv [Ev.D i agg.round agg.fullData] (by simp) (by simp) (by simp) (by simp)
-    have hC := NodeInv.upd_commit hE m ((commitOK_of_validateCommit' i m _ _ p hinv.height hv ha.1).1.ext _)
+    have hC := NodeInv.upd_commit hE m ((commitOK_of_validateCommit' i m _ _ p hinv.height hv ha.1 ha.2.1).1.ext _)
     exact NodeInv.upd_decided hC p.fullData ⟨agg.round, by rw [← hfd]; simp⟩
   | rc s X h0 h1 h2 h3 =>
     have hinv := hlive s h0
